@@ -325,13 +325,50 @@ func wait(in string, enc *json.Encoder) any {
 		}()
 	}
 	wg.Wait()
+	// waits whose context is ALREADY cancelled when they start: the waiter was cancelled first, so it must yield the
+	// context's error whatever the readiness map says. A long polling period, so that a tick cannot come first.
+	health.DefaultReadyCheckInterval = 400 * time.Millisecond
+	var firstc []map[string]any
+	for j, pre := range [][]Op{{}, {{Op: "add", C: "a"}, {Op: "ready", C: "a"}}, {{Op: "add", C: "a"}},
+		{{Op: "add", C: "a"}, {Op: "add", C: "b"}, {Op: "ready", C: "b"}, {Op: "ready", C: "a"}},
+		{{Op: "ready", C: "c"}}} {
+		h := health.NewHealth()
+		ev := []map[string]any{}
+		for _, o := range pre {
+			apply(h, o)
+			ev = append(ev, map[string]any{"e": "op", "o": o})
+		}
+		ctx, cancel := context.WithCancel(context.Background())
+		cancel()
+		ev = append(ev, map[string]any{"e": "cancel"}, map[string]any{"e": "start"})
+		ch := h.WaitForReady(ctx)
+		time.Sleep(60 * time.Millisecond)
+		ev = append(ev, map[string]any{"e": "sleep"})
+		st, isctx := "pending", false
+		select {
+		case err, ok := <-ch:
+			if !ok {
+				st = "closed"
+			} else {
+				st = "err"
+				isctx = errors.Is(err, context.Canceled)
+			}
+		default:
+		}
+		ev = append(ev, map[string]any{"e": "obs", "state": st, "isctx": isctx})
+		firstc = append(firstc, map[string]any{"k": "wait", "id": 2*len(scripts) + j, "script": Script{Pre: pre, Mid: []Op{}, Cancel: "first"},
+			"cancelledfirst": true, "events": ev})
+	}
 	for _, r := range results {
 		must(enc.Encode(r))
 	}
 	for _, r := range second {
 		must(enc.Encode(r))
 	}
-	return map[string]any{"scripts": len(scripts), "second_waits": len(second)}
+	for _, r := range firstc {
+		must(enc.Encode(r))
+	}
+	return map[string]any{"scripts": len(scripts), "second_waits": len(second), "cancelled_first_waits": len(firstc)}
 }
 
 func readLines(path string, f func([]byte)) {
